@@ -631,10 +631,10 @@ def count_paths(g: FlowGraph, cap: int = 1000) -> int:
             memo[n] = min(v, cap)
             return memo[n]
 
-        import sys
+        from vf.cut import harness_stack
 
-        sys.setrecursionlimit(max(sys.getrecursionlimit(), 10000))
-        total += rec(e, frozenset())
+        with harness_stack():
+            total += rec(e, frozenset())
         if total > cap:
             return cap
     return total
